@@ -528,6 +528,10 @@ class Gen:
             elif r < 0.98 and self.callable:
                 self.stats["do"] += 1
                 out.append(["do", rng.choice(self.callable)])
+            elif r < 0.985 and insub:
+                # `do` may name the dialog flow itself (it then waits for its first user statement)
+                self.stats["do"] += 1
+                out.append(["do", "main flow"])
             else:
                 out.append(["bot", self.botn()])
         return out
